@@ -13,6 +13,9 @@ inductive Chg (s : St) (tr : Tr) (p : Nat) (tp tp' : Tp) : Prop
         (h4 : tp'.cbAt = s.clock)
   | dec (h1 : tp.st = .inCb) (h2 : tp'.st = .done) (h3 : tp'.addAt = tp.addAt) (h4 : tp'.cbAt = tp.cbAt)
   | early (h : tp.early = true)
+  | ndet (h0 : ∃ t, tr = .actionDone t p) (h1 : tp.st = .added) (h2 : tp'.st = .inCbN) (h3 : tp'.addAt = tp.addAt)
+         (h4 : tp'.cbAt = s.clock)
+  | ndec (h1 : tp.st = .inCbN) (h2 : tp'.st = .done) (h3 : tp'.addAt = tp.addAt) (h4 : tp'.cbAt = tp.cbAt)
 
 theorem step?_chg {s s' : St} {tr : Tr} (hI : Inv s) (hS : SInv s) (hs : step? s tr = some s') :
     s'.tps = s.tps ∨ ∃ (p : Nat) (tp tp' : Tp), s.tps[p]? = some tp ∧ s'.tps = s.tps.set p tp' ∧ tp'.early = tp.early ∧ Chg s tr p tp tp' := by
@@ -126,6 +129,36 @@ theorem step?_chg {s s' : St} {tr : Tr} (hI : Inv s) (hS : SInv s) (hs : step? s
     · split at hs
       · rename_i tp htp hg; cases hs
         exact Or.inr ⟨p, tp, _, htp, rfl, rfl, .same rfl rfl rfl⟩
+      · cases hs
+    · cases hs
+  | startupReady t n =>
+    simp only [step?] at hs; split at hs
+    · split at hs
+      · split at hs
+        · rename_i q _ _ tp htp hg; cases hs
+          exact Or.inr ⟨q, tp, _, htp, rfl, rfl, .same rfl rfl rfl⟩
+        · cases hs
+      · cases hs
+    · cases hs
+  | actionDone t q =>
+    simp only [step?] at hs; split at hs
+    · split at hs
+      · rename_i m _ _ tp hbt hsu htp hg
+        split at hs
+        · cases hs
+          exact Or.inr ⟨q, tp, _, htp, rfl, rfl, .ndet ⟨t, rfl⟩ hg.1 rfl rfl rfl⟩
+        · cases hs
+          exact Or.inr ⟨q, tp, _, htp, rfl, rfl, .same rfl rfl rfl⟩
+      · cases hs
+    · cases hs
+  | nestDec t =>
+    simp only [step?] at hs; split at hs
+    · split at hs
+      · rename_i q hsu _ tp htp; cases hs
+        have hst : tp.st = .inCbN := by
+          obtain ⟨x, hx, hxs, _⟩ := hI.nFwd t q hsu
+          rw [htp] at hx; cases hx; exact hxs
+        exact Or.inr ⟨q, tp, _, htp, rfl, rfl, .ndec hst rfl rfl rfl⟩
       · cases hs
     · cases hs
 
